@@ -31,6 +31,263 @@ theorem c09_code_facts :
     ∧ Share.bn256Order = 21888242871839275222246405745257275088548364400416034343698204186575808495617
     ∧ Share.ed25519Order = 2 ^ 252 + 27742317777372353535851937790883648493 := by decide
 
+/-- **the code the model transcribes, statement by statement** (regenerated from `share/poly.go` on every
+run by `go/extract/tblsfacts`, rendered with go/printer: `depth| statement`). Every function of the file
+that `Model/Share.lean` mirrors is pinned completely – guards (`s == nil || s.V == nil || s.I < 0 || n <= s.I`,
+the `seen` map of /repo 2d8b40a, `len(x) == t` / `break`, `len(x) < t`, `len(x) != t`), the evaluation point
+`1 + int64(i)`, the Lagrange loops (`i == j` / `continue`, `num.Div(num, den)`, `den.Inv(den)`), the length
+and group checks of `Add` / `Equal`, `Check`, `Commit`, `Mul`. ANY edit to one of them breaks this obligation
+until the model has been compared with the new text. -/
+theorem c09_code_shape :
+    Gen.TblsShape.newPriPoly = [
+      "0| func NewPriPoly(group kyber.Group, t int, s kyber.Scalar, rand cipher.Stream) *PriPoly",
+      "1| coeffs := make([]kyber.Scalar, t)",
+      "1| coeffs[0] = s",
+      "1| if coeffs[0] == nil",
+      "2| coeffs[0] = group.Scalar().Pick(rand)",
+      "1| for i := 1; i < t; i++",
+      "2| coeffs[i] = group.Scalar().Pick(rand)",
+      "1| return &PriPoly{g: group, coeffs: coeffs}"
+    ] ∧
+    Gen.TblsShape.coefficientsToPriPoly = [
+      "0| func CoefficientsToPriPoly(g kyber.Group, coeffs []kyber.Scalar) *PriPoly",
+      "1| return &PriPoly{g: g, coeffs: coeffs}"
+    ] ∧
+    Gen.TblsShape.priThreshold = [
+      "0| func (p *PriPoly) Threshold() int",
+      "1| return len(p.coeffs)"
+    ] ∧
+    Gen.TblsShape.priSecret = [
+      "0| func (p *PriPoly) Secret() kyber.Scalar",
+      "1| return p.coeffs[0]"
+    ] ∧
+    Gen.TblsShape.priEval = [
+      "0| func (p *PriPoly) Eval(i int) *PriShare",
+      "1| xi := p.g.Scalar().SetInt64(1 + int64(i))",
+      "1| v := p.g.Scalar().Zero()",
+      "1| for j := p.Threshold() - 1; j >= 0; j--",
+      "2| v.Mul(v, xi)",
+      "2| v.Add(v, p.coeffs[j])",
+      "1| return &PriShare{i, v}"
+    ] ∧
+    Gen.TblsShape.priShares = [
+      "0| func (p *PriPoly) Shares(n int) []*PriShare",
+      "1| shares := make([]*PriShare, n)",
+      "1| for i := range shares",
+      "2| shares[i] = p.Eval(i)",
+      "1| return shares"
+    ] ∧
+    Gen.TblsShape.priAdd = [
+      "0| func (p *PriPoly) Add(q *PriPoly) (*PriPoly, error)",
+      "1| if p.g.String() != q.g.String()",
+      "2| return nil, errorGroups",
+      "1| if p.Threshold() != q.Threshold()",
+      "2| return nil, errorCoeffs",
+      "1| coeffs := make([]kyber.Scalar, p.Threshold())",
+      "1| for i := range coeffs",
+      "2| coeffs[i] = p.g.Scalar().Add(p.coeffs[i], q.coeffs[i])",
+      "1| return &PriPoly{p.g, coeffs}, nil"
+    ] ∧
+    Gen.TblsShape.priEqual = [
+      "0| func (p *PriPoly) Equal(q *PriPoly) bool",
+      "1| if p.g.String() != q.g.String()",
+      "2| return false",
+      "1| if len(p.coeffs) != len(q.coeffs)",
+      "2| return false",
+      "1| b := 1",
+      "1| for i := 0; i < p.Threshold(); i++",
+      "2| pb, _ := p.coeffs[i].MarshalBinary()",
+      "2| qb, _ := q.coeffs[i].MarshalBinary()",
+      "2| b &= subtle.ConstantTimeCompare(pb, qb)",
+      "1| return b == 1"
+    ] ∧
+    Gen.TblsShape.priCommit = [
+      "0| func (p *PriPoly) Commit(b kyber.Point) *PubPoly",
+      "1| commits := make([]kyber.Point, p.Threshold())",
+      "1| for i := range commits",
+      "2| commits[i] = p.g.Point().Mul(p.coeffs[i], b)",
+      "1| return &PubPoly{p.g, b, commits}"
+    ] ∧
+    Gen.TblsShape.priMul = [
+      "0| func (p *PriPoly) Mul(q *PriPoly) *PriPoly",
+      "1| d1 := len(p.coeffs) - 1",
+      "1| d2 := len(q.coeffs) - 1",
+      "1| newDegree := d1 + d2",
+      "1| coeffs := make([]kyber.Scalar, newDegree+1)",
+      "1| for i := range coeffs",
+      "2| coeffs[i] = p.g.Scalar().Zero()",
+      "1| for i := range p.coeffs",
+      "2| for j := range q.coeffs",
+      "3| tmp := p.g.Scalar().Mul(p.coeffs[i], q.coeffs[j])",
+      "3| coeffs[i+j] = tmp.Add(coeffs[i+j], tmp)",
+      "1| return &PriPoly{p.g, coeffs}"
+    ] ∧
+    Gen.TblsShape.priCoefficients = [
+      "0| func (p *PriPoly) Coefficients() []kyber.Scalar",
+      "1| return p.coeffs"
+    ] ∧
+    Gen.TblsShape.recoverSecret = [
+      "0| func RecoverSecret(g kyber.Group, shares []*PriShare, t, n int) (kyber.Scalar, error)",
+      "1| x := xScalar(g, shares, t, n)",
+      "1| if len(x) < t",
+      "2| return nil, errors.New(\"share: not enough shares to recover secret\")",
+      "1| acc := g.Scalar().Zero()",
+      "1| num := g.Scalar()",
+      "1| den := g.Scalar()",
+      "1| tmp := g.Scalar()",
+      "1| for i, xi := range x",
+      "2| num.Set(shares[i].V)",
+      "2| den.One()",
+      "2| for j, xj := range x",
+      "3| if i == j",
+      "4| continue",
+      "3| num.Mul(num, xj)",
+      "3| den.Mul(den, tmp.Sub(xj, xi))",
+      "2| acc.Add(acc, num.Div(num, den))",
+      "1| return acc, nil"
+    ] ∧
+    Gen.TblsShape.xScalar = [
+      "0| func xScalar(g kyber.Group, shares []*PriShare, t, n int) map[int]kyber.Scalar",
+      "1| x := make(map[int]kyber.Scalar)",
+      "1| seen := make(map[int]struct{})",
+      "1| for i, s := range shares",
+      "2| if s == nil || s.V == nil || s.I < 0 || n <= s.I",
+      "3| continue",
+      "2| if _, dup := seen[s.I]; dup",
+      "3| continue",
+      "2| seen[s.I] = struct{}{}",
+      "2| x[i] = g.Scalar().SetInt64(1 + int64(s.I))",
+      "2| if len(x) == t",
+      "3| break",
+      "1| return x"
+    ] ∧
+    Gen.TblsShape.xMinusConst = [
+      "0| func xMinusConst(g kyber.Group, c kyber.Scalar) *PriPoly",
+      "1| neg := g.Scalar().Neg(c)",
+      "1| return &PriPoly{ g: g, coeffs: []kyber.Scalar{neg, g.Scalar().One()}, }"
+    ] ∧
+    Gen.TblsShape.recoverPriPoly = [
+      "0| func RecoverPriPoly(g kyber.Group, shares []*PriShare, t, n int) (*PriPoly, error)",
+      "1| x := xScalar(g, shares, t, n)",
+      "1| if len(x) != t",
+      "2| return nil, errors.New(\"share: not enough shares to recover private polynomial\")",
+      "1| var accPoly *PriPoly",
+      "1| var err error",
+      "1| den := g.Scalar()",
+      "1| for j, xj := range x",
+      "2| var basis = &PriPoly{ g: g, coeffs: []kyber.Scalar{g.Scalar().One()}, }",
+      "2| var acc = g.Scalar().Set(shares[j].V)",
+      "2| for m, xm := range x",
+      "3| if j == m",
+      "4| continue",
+      "3| basis = basis.Mul(xMinusConst(g, xm))",
+      "3| den.Sub(xj, xm)",
+      "3| den.Inv(den)",
+      "3| acc.Mul(acc, den)",
+      "2| for i := range basis.coeffs",
+      "3| basis.coeffs[i] = basis.coeffs[i].Mul(basis.coeffs[i], acc)",
+      "2| if accPoly == nil",
+      "3| accPoly = basis",
+      "3| continue",
+      "2| accPoly, err = accPoly.Add(basis)",
+      "2| if err != nil",
+      "3| return nil, err",
+      "1| return accPoly, nil"
+    ] ∧
+    Gen.TblsShape.newPubPoly = [
+      "0| func NewPubPoly(g kyber.Group, b kyber.Point, commits []kyber.Point) *PubPoly",
+      "1| return &PubPoly{g, b, commits}"
+    ] ∧
+    Gen.TblsShape.pubInfo = [
+      "0| func (p *PubPoly) Info() (base kyber.Point, commits []kyber.Point)",
+      "1| return p.b, p.commits"
+    ] ∧
+    Gen.TblsShape.pubThreshold = [
+      "0| func (p *PubPoly) Threshold() int",
+      "1| return len(p.commits)"
+    ] ∧
+    Gen.TblsShape.pubCommit = [
+      "0| func (p *PubPoly) Commit() kyber.Point",
+      "1| return p.commits[0]"
+    ] ∧
+    Gen.TblsShape.pubEval = [
+      "0| func (p *PubPoly) Eval(i int) *PubShare",
+      "1| xi := p.g.Scalar().SetInt64(1 + int64(i))",
+      "1| v := p.g.Point().Null()",
+      "1| for j := p.Threshold() - 1; j >= 0; j--",
+      "2| v.Mul(xi, v)",
+      "2| v.Add(v, p.commits[j])",
+      "1| return &PubShare{i, v}"
+    ] ∧
+    Gen.TblsShape.pubShares = [
+      "0| func (p *PubPoly) Shares(n int) []*PubShare",
+      "1| shares := make([]*PubShare, n)",
+      "1| for i := range shares",
+      "2| shares[i] = p.Eval(i)",
+      "1| return shares"
+    ] ∧
+    Gen.TblsShape.pubAdd = [
+      "0| func (p *PubPoly) Add(q *PubPoly) (*PubPoly, error)",
+      "1| if p.g.String() != q.g.String()",
+      "2| return nil, errorGroups",
+      "1| if p.Threshold() != q.Threshold()",
+      "2| return nil, errorCoeffs",
+      "1| commits := make([]kyber.Point, p.Threshold())",
+      "1| for i := range commits",
+      "2| commits[i] = p.g.Point().Add(p.commits[i], q.commits[i])",
+      "1| return &PubPoly{p.g, p.b, commits}, nil"
+    ] ∧
+    Gen.TblsShape.pubEqual = [
+      "0| func (p *PubPoly) Equal(q *PubPoly) bool",
+      "1| if p.g.String() != q.g.String()",
+      "2| return false",
+      "1| if len(p.commits) != len(q.commits)",
+      "2| return false",
+      "1| b := 1",
+      "1| for i := 0; i < p.Threshold(); i++",
+      "2| pb, _ := p.commits[i].MarshalBinary()",
+      "2| qb, _ := q.commits[i].MarshalBinary()",
+      "2| b &= subtle.ConstantTimeCompare(pb, qb)",
+      "1| return b == 1"
+    ] ∧
+    Gen.TblsShape.pubCheck = [
+      "0| func (p *PubPoly) Check(s *PriShare) bool",
+      "1| pv := p.Eval(s.I)",
+      "1| ps := p.g.Point().Mul(s.V, p.b)",
+      "1| return pv.V.Equal(ps)"
+    ] ∧
+    Gen.TblsShape.recoverCommit = [
+      "0| func RecoverCommit(g kyber.Group, shares []*PubShare, t, n int) (kyber.Point, error)",
+      "1| x := make(map[int]kyber.Scalar)",
+      "1| seen := make(map[int]struct{})",
+      "1| for i, s := range shares",
+      "2| if s == nil || s.V == nil || s.I < 0 || n <= s.I",
+      "3| continue",
+      "2| if _, dup := seen[s.I]; dup",
+      "3| continue",
+      "2| seen[s.I] = struct{}{}",
+      "2| x[i] = g.Scalar().SetInt64(1 + int64(s.I))",
+      "1| if len(x) < t",
+      "2| return nil, errors.New(\"share: not enough good public shares to reconstruct secret commitment\")",
+      "1| num := g.Scalar()",
+      "1| den := g.Scalar()",
+      "1| tmp := g.Scalar()",
+      "1| Acc := g.Point().Null()",
+      "1| Tmp := g.Point()",
+      "1| for i, xi := range x",
+      "2| num.One()",
+      "2| den.One()",
+      "2| for j, xj := range x",
+      "3| if i == j",
+      "4| continue",
+      "3| num.Mul(num, xj)",
+      "3| den.Mul(den, tmp.Sub(xj, xi))",
+      "2| Tmp.Mul(num.Div(num, den), shares[i].V)",
+      "2| Acc.Add(Acc, Tmp)",
+      "1| return Acc, nil"
+    ] :=
+  ⟨rfl, rfl, rfl, rfl, rfl, rfl, rfl, rfl, rfl, rfl, rfl, rfl, rfl, rfl, rfl, rfl, rfl, rfl, rfl, rfl, rfl, rfl, rfl, rfl, rfl⟩
+
 /-! ### 1. reconstruction
 
 `idxPri n shares` / `idxPub n shares` (`Proofs/Share.lean`) are the DISTINCT indices `i ∈ [0,n)`
